@@ -130,8 +130,8 @@ func closeKnown(known []string) []string {
 //            mixed values would make the implementation's outcome depend on Go map iteration order (see notes)
 //   single : one family, not prefix-closed, no fan-out above the family
 //   stale  : fixed shape that deterministically leaves a stale key (finding F15c), random ids
-//   bad    : single + one URL the tree refuses (finding F15a)
-//   delim  : URLs containing the METHOD:::URL delimiter (finding F15b)
+//   bad    : single + one URL the tree refuses (regression for the repaired F15a: the batch is no longer dropped)
+//   delim  : URLs containing the METHOD:::URL delimiter (regression for the repaired F15b)
 //   weird  : no convergence; trimming, host/path confusion, trailing wildcard
 func genStream(r *prng.R, maxLen int, kind string) stream {
 	s := stream{thr: r.Range(2, 4)}
@@ -169,7 +169,7 @@ func genStream(r *prng.R, maxLen int, kind string) stream {
 	default:
 		pool = urlPool(r, s.thr, &s.known, 1, false)
 	}
-	if kind == "bad" { // F15a class
+	if kind == "bad" { // URLs the tree refuses
 		pool = append(pool, prng.Pick(r, []string{"a.com//x", "a.com/p/*/q", "a.com/p/{x}", "a.com/p//", "a..com/p"}))
 	}
 	n := r.Range(1, maxLen)
@@ -206,7 +206,7 @@ func genStream(r *prng.R, maxLen int, kind string) stream {
 		}
 		emit(u, internal)
 	}
-	if kind == "delim" { // F15b class: two URLs that collide after METHOD:::URL is split back; identical records
+	if kind == "delim" { // URLs containing the key delimiter (used to collide after a restart)
 		s.thr = 50
 		for _, u := range []string{"a.com/d:::1", "a.com/d:::2"} {
 			s.recs = append(s.recs, recLine(ts, 7, 9, 200, "GET", u, "lunar-py-interceptor/1.2.3", "alpha", false))
